@@ -61,7 +61,8 @@ static fff_vector* _fff_vector_new_from_buffer(const char* data, npy_intp dim, n
   size_t sizeof_double = sizeof(double);
 
   /* If the input array is double and is aligned, just wrap without copying */
-  if ((type == NPY_DOUBLE) && (itemsize==sizeof_double)) {
+  if ((type == NPY_DOUBLE) && (itemsize==sizeof_double) &&
+      (stride > 0) && (stride % (npy_intp)sizeof_double == 0)) {
     y = (fff_vector*)malloc(sizeof(fff_vector));
     y->size = (size_t)dim;
     y->stride = (size_t)stride/sizeof_double;
